@@ -154,4 +154,11 @@ PROPS = {
         rule="cases: as C03; spec verdict = module_type() of every module = ISO region of the coordinate; #Data = 8*codewords + remainder.",
         exhaustive_thorough=True,
         trusted=COMMON_TRUST + ["templateOk / scanOk: evaluated by native_decide (Lean compiler trusted for these closed terms)"]),
+    "C16": dict(
+        module="FastQr.Props.C16", level="proof", key=lambda t: ("term", t[3], t[4], len(t[1]) % 7) if len(t) > 5 else None,
+        rule="cases: real QRCode::to_str() on real symbols of all 40 sizes (3 payloads each, thorough 50: random level/mode/mask, "
+             "one at capacity); spec verdict = line count, line lengths, four-glyph alphabet and the grid decoded by "
+             "Spec.TermDecode = matrix inside a one-module light border. distinct = (mode, version, payload length class).",
+        exhaustive_quick=True, exhaustive_thorough=True,
+        trusted=["hand model of helpers.rs tied by exact-string correspondence on all 40 sizes"]),
 }
